@@ -1,7 +1,7 @@
 (* C18 -- Logging never fails the caller, stays bounded, and its files read back.
    Property theorems only; proofs live in lib/LogBufProofs.v; the model lib/LogBuf.v interprets the constants and
    shape facts translated from logging/{log,levels,incident,flogfile,publish}.py into gen/LogBufGen.v. *)
-From Coq Require Import ZArith List Bool Sorting.Sorted.
+From Coq Require Import ZArith List Bool Lia Sorting.Sorted.
 Import ListNotations.
 Require Import Verif.lib.PyLite Verif.gen.LogBufGen Verif.lib.LogBuf Verif.lib.LogBufProofs.
 Local Open Scope Z_scope.
@@ -25,7 +25,7 @@ Print Assumptions C18_numbers_strictly_increase.
 
 (* "memory stays bounded (each facility/level history holds at most its configured number of events ...":
    (1) right after an event on (facility, level) that buffer holds at most its limit, namely the most recent events,
-       and no other buffer changed;
+       and no other buffer changed -- for EVERY cfg c, i.e. also when the incident handling raises (c_fault c);
    (2) over ANY history (limits may be changed at any time) no buffer ever exceeds the largest configured limit.
    Full statement "length <= current limit at all times" is NOT what the code does: set_buffer_size only records the
    new limit (translated fact set_buffer_size_trims = false, Example ex_bounded), the buffer shrinks at its next event. *)
@@ -43,6 +43,19 @@ Theorem C18_buffers_bounded : forall M c ops,
   forall f l, Z.of_nat (List.length (buf_get (s_bufs (fst (run c init ops))) f l)) <= M.
 Proof. intros M c ops H1 H2. exact (buffers_bounded_from_init M c ops H1 H2). Qed.
 Print Assumptions C18_buffers_bounded.
+
+(* the same over histories in which the synchronous incident handling fails (c_fault: the qualifier raises, or
+   incident_declared raises because the incident directory is gone / a custom reporter raises) and in which that
+   fault, the reporter kind or the qualifier are switched in mid-history (segments).  True because the translated
+   stage order of add_event trims BEFORE the qualifier runs: an exception out of the qualifier cannot skip the trim. *)
+Theorem C18_buffers_bounded_under_incident_faults : forall M segs,
+  DEFAULT_SIZELIMIT <= M -> Forall (fun cs => Forall (op_limit_le M) (snd cs)) segs ->
+  forall f l, Z.of_nat (List.length (buf_get (s_bufs (run_segs init segs)) f l)) <= M.
+Proof.
+  intros M segs H1 H2. assert (0 <= M) by (unfold DEFAULT_SIZELIMIT in H1; lia).
+  apply buffers_bounded_segs; [assumption | exact H2 | apply init_sizes_le; exact H1 | apply init_bufs_le; assumption].
+Qed.
+Print Assumptions C18_buffers_bounded_under_incident_faults.
 
 (* "... each remote subscriber at most its queue limit with a bounded number in flight) and subscribers see an
    order-preserving subsequence": for every schedule of sends / queue turns / acknowledgements / failures *)
